@@ -3,6 +3,7 @@ package main
 import (
 	"fmt"
 	"go/constant"
+	"go/token"
 	"go/types"
 	"sort"
 	"strings"
@@ -509,5 +510,235 @@ func ruleTerminalStatesStay(c *Check, p *Program, rule string) {
 	}
 	if n < 5 {
 		c.Fail(rule, "lifecycle#transition-sites", "", "the transition sites of Reader and Writer are resolved", fmt.Sprintf("only %d calls of _State.next / deferred _State.nextd found (confirmed by reading: 7)", n))
+	}
+}
+
+// ruleWriteToStartsFresh: Reader.WriteTo decodes block after block and never looks at the cursor into the pending block
+// (r.idx): the bytes a Read left pending in r.data[r.idx:] would be lost. Its block fetches (Reader.read, a receive from
+// r.reads, or a helper that does either) are therefore reachable only with a state word that the dispatch has shown
+// not to be readState. A WriteTo that reads Reader.idx (drains what is pending) is not judged.
+func ruleWriteToStartsFresh(c *Check, p *Program, rule string) {
+	fn := findFn(c, p, rule, "", "Reader.WriteTo")
+	if fn == nil {
+		return
+	}
+	key := "Reader.WriteTo#fetch-not-after-Read"
+	desc := "WriteTo does not resume a stream that Read has started: its block fetches are not reachable in readState (WriteTo ignores the bytes pending in r.data[r.idx:])"
+	readFn := findFn(c, p, rule, "", "Reader.read")
+	fetchesIn := func(g *ssa.Function) bool {
+		hit := false
+		allInstrs(g, func(in ssa.Instruction) {
+			if u, ok := in.(*ssa.UnOp); ok && u.Op == token.ARROW && loadField(u.X) == "Reader.reads" {
+				hit = true
+			}
+		})
+		return hit
+	}
+	drains := false
+	for _, g := range deepFuncs(fn, 2) {
+		if g == readFn || (readFn != nil && reachesFn(readFn, g)) {
+			continue
+		}
+		allInstrs(g, func(in ssa.Instruction) {
+			if u, ok := in.(*ssa.UnOp); ok && u.Op == token.MUL && loadField(u) == "Reader.idx" {
+				drains = true
+			}
+		})
+	}
+	if drains {
+		c.Cond(true, rule, key, p.Pos(fn.Pos()), desc, "WriteTo reads the cursor of the pending block: not judged", "")
+		return
+	}
+	var sites []ssa.Instruction
+	allInstrs(fn, func(in ssa.Instruction) {
+		if u, ok := in.(*ssa.UnOp); ok && u.Op == token.ARROW && loadField(u.X) == "Reader.reads" {
+			sites = append(sites, in)
+			return
+		}
+		ci, ok := in.(ssa.CallInstruction)
+		if !ok {
+			return
+		}
+		if _, isCall := ci.(*ssa.Call); !isCall {
+			return
+		}
+		f := staticCallee(ci)
+		if f == nil || !inModule(f) || recvTypeName(f) != "Reader" || shortFn(f) == "Reader.init" {
+			return
+		}
+		if f == readFn || (readFn != nil && reachesFn(f, readFn)) || fetchesIn(f) {
+			sites = append(sites, in)
+		}
+	})
+	if len(sites) == 0 {
+		c.Fail(rule, key, p.Pos(fn.Pos()), desc, "no block fetch found in Reader.WriteTo (anchor unresolved)")
+		return
+	}
+	sv := stateLoadOf(fn)
+	for _, in := range sites {
+		c.Sites++
+		if sv == nil {
+			c.Fail(rule, key, p.InstrPos(in), desc, "WriteTo fetches blocks without looking at the state word")
+			continue
+		}
+		at := fullSet(8)
+		svIn := sv.(ssa.Instruction)
+		if in.Block() != svIn.Block() {
+			if s, ok := valueSetsAt(fn, sv, svIn.Block(), 8)[in.Block()]; ok {
+				at = s
+			}
+		}
+		got := at.intersect(vset{{3, 3}})
+		c.Cond(len(got) == 0, rule, key, p.InstrPos(in), desc, "state set at the fetch: "+at.String(), "the block fetch is reachable with the state word in readState: what Read left pending in the current block is skipped, WriteTo delivers a stream with a hole and no error")
+	}
+}
+
+// ruleOptionWritesUnconditional: an option determines what it configures. In every Option closure, each kind of
+// configuration write (a store to an option field, a descriptor-flag setter) lies on every path to the `return nil`
+// it can reach: an option that writes only for some arguments (SizeOption(0) leaving an earlier size in place)
+// makes the next frame depend on what the object was configured with before, not on the options applied.
+// optionArmOwner: the object type (Writer, Reader, CompressingReader) whose arm of an Option closure's type switch
+// the write belongs to, read off the type assertion its address (or receiver) derives from.
+func optionArmOwner(in ssa.Instruction) string {
+	var v ssa.Value
+	switch x := in.(type) {
+	case *ssa.Store:
+		v = x.Addr
+	case ssa.CallInstruction:
+		if len(x.Common().Args) == 0 {
+			return ""
+		}
+		v = x.Common().Args[0]
+	default:
+		return ""
+	}
+	for i := 0; i < 12 && v != nil; i++ {
+		switch y := v.(type) {
+		case *ssa.FieldAddr:
+			v = y.X
+		case *ssa.Field:
+			v = y.X
+		case *ssa.UnOp:
+			v = y.X
+		case *ssa.Extract:
+			v = y.Tuple
+		case *ssa.TypeAssert:
+			t := y.AssertedType
+			if pt, ok := t.(*types.Pointer); ok {
+				t = pt.Elem()
+			}
+			if nt, ok := t.(*types.Named); ok {
+				return nt.Obj().Name()
+			}
+			return ""
+		default:
+			return ""
+		}
+	}
+	return ""
+}
+
+func ruleOptionWritesUnconditional(c *Check, p *Program, rule string, owners ...string) {
+	wantOwner := func(in ssa.Instruction) bool {
+		if len(owners) == 0 {
+			return true
+		}
+		o := optionArmOwner(in)
+		if o == "" {
+			return true // not attributable: judged
+		}
+		for _, w := range owners {
+			if w == o {
+				return true
+			}
+		}
+		return false
+	}
+	optionSetters := map[string]bool{"BlockSizeIndexSet": true, "BlockChecksumSet": true, "ContentChecksumSet": true, "SizeSet": true}
+	optionFields := map[string]bool{"Writer.level": true, "Writer.num": true, "Writer.handler": true, "Writer.legacy": true,
+		"Reader.num": true, "Reader.handler": true, "CompressingReader.level": true, "CompressingReader.handler": true, "CompressingReader.legacy": true,
+		"FrameDescriptor.ContentSize": true}
+	n := 0
+	for _, fn := range moduleFuncs(p, pkgRoot) {
+		if fn.Parent() == nil || !strings.HasSuffix(fn.Parent().Name(), "Option") {
+			continue
+		}
+		// configuration writes of the closure and of the helpers it is split into, by target; a write in a helper
+		// is represented by the call that reaches it
+		writes := map[string][]ssa.Instruction{}
+		var order []string
+		add := func(t string, in ssa.Instruction) {
+			if len(writes[t]) == 0 {
+				order = append(order, t)
+			}
+			writes[t] = append(writes[t], in)
+		}
+		targetOf := func(in ssa.Instruction) string {
+			switch x := in.(type) {
+			case *ssa.Store:
+				if lf := lastField(x.Addr); optionFields[lf] {
+					return lf
+				}
+			case ssa.CallInstruction:
+				if f := staticCallee(x); f != nil && recvTypeName(f) == "DescriptorFlags" && optionSetters[f.Name()] {
+					return "FrameDescriptor.Flags." + strings.TrimSuffix(f.Name(), "Set")
+				}
+			}
+			return ""
+		}
+		allInstrs(fn, func(in ssa.Instruction) {
+			if t := targetOf(in); t != "" {
+				if wantOwner(in) {
+					add(t, in)
+				}
+				return
+			}
+			if ci, ok := in.(ssa.CallInstruction); ok {
+				if h := staticCallee(ci); h != nil && inModule(h) && isHelper(h) {
+					for _, g := range deepFuncs(h, 1) {
+						allInstrs(g, func(j ssa.Instruction) {
+							if t := targetOf(j); t != "" {
+								add(t, in)
+							}
+						})
+					}
+				}
+			}
+		})
+		var nilRets []ssa.Instruction
+		allInstrs(fn, func(in ssa.Instruction) {
+			if r, ok := in.(*ssa.Return); ok && len(r.Results) == 1 && isNilConst(r.Results[0]) {
+				nilRets = append(nilRets, in)
+			}
+		})
+		for _, t := range order {
+			ws := writes[t]
+			isW := func(in ssa.Instruction) bool {
+				for _, w := range ws {
+					if w == in {
+						return true
+					}
+				}
+				return false
+			}
+			for _, r := range nilRets {
+				reached := false
+				for _, w := range ws {
+					if hit, _ := reachAvoid(fn, w, func(in ssa.Instruction) bool { return in == r }, nil); hit {
+						reached = true
+					}
+				}
+				if !reached {
+					continue
+				}
+				n++
+				c.Sites++
+				miss, trail := reachAvoid(fn, nil, func(in ssa.Instruction) bool { return in == r }, isW)
+				c.Cond(!miss, rule, fmt.Sprintf("%s#always-writes:%s", fn.Parent().Name(), t), p.InstrPos(r), "an applied option writes what it configures on every successful path, whatever its argument (the frame depends on the options applied, not on what the object was configured with before)", "every path to this `return nil` passes a write of "+t, "a path returns nil without writing "+t+" ("+strings.Join(trail, " -> ")+"): for some arguments the option leaves the previous setting in place")
+			}
+		}
+	}
+	if n == 0 {
+		c.Fail(rule, "Option#always-writes", "", "configuration writes of the Option closures are resolved", "no configuration write found in any Option closure (anchor unresolved)")
 	}
 }
